@@ -1,7 +1,123 @@
-//! MoneyFlowIndex — reference model (TODO).
+//! Money Flow Index. Doc: 3 values — `upper bound` const value, `MFI` value in [0, 1], `lower bound` const
+//! value; `zone` = "signal zone size" (0.5: the bounds coincide), i.e. lower = zone, upper = 1 - zone.
+//! Formula (<https://en.wikipedia.org/wiki/Money_flow_index>, scaled to [0, 1] as documented):
+//!   typical price tp = (high + low + close) / 3; money flow = tp * volume;
+//!   positive (negative) money flow = Σ over the last `period` bars of the money flow of the bars whose tp is
+//!   higher (lower) than the previous bar's tp;
+//!   money ratio = positive / negative; MFI = 1 - 1 / (1 + money ratio) = positive / (positive + negative).
+//! 2 signals:
+//!   #0 MFI crosses the lower bound downwards: full buy; crosses the upper bound upwards: full sell;
+//!   #1 MFI crosses the lower bound upwards: full buy; crosses the upper bound downwards: full sell.
 use super::*;
+use std::collections::VecDeque;
 
-/// returns None until the reference is written
-pub fn make(_cfg: &Cfg, _c0: &RC) -> Option<Box<dyn IndRef>> {
-	None
+/// the linked formula weighs the volume with the typical price ("money flow"); set to `false` to get the
+/// plain volume flow the implementation sums (used only to look at the remaining discrepancies)
+const MONEY_FLOW_USES_PRICE: bool = true;
+
+#[derive(Clone, Copy)]
+struct Bar {
+	/// +1: tp rose, -1: tp fell, 0: unchanged
+	dir: i8,
+	/// the direction could not be decided (sums differ by rounding only)
+	ambiguous: bool,
+	/// money flow of the bar
+	mf: Q,
+	/// the money flow is exactly zero (no volume, or a zero price)
+	zero: bool,
+}
+
+#[derive(Clone)]
+pub struct Mfi {
+	n: usize,
+	zone: f64,
+	last_sum: f64,
+	bars: VecDeque<Bar>,
+	t: usize,
+	mag: f64,
+	defined: bool,
+	prev_defined: bool,
+	x_upper: CrossD,
+	x_lower: CrossD,
+}
+
+pub fn make(cfg: &Cfg, c0: &RC) -> Option<Box<dyn IndRef>> {
+	let n = cfg.int("period");
+	if n == 0 {
+		// the documented range of `period` starts at 2
+		return None;
+	}
+	// prehistory: the typical price never changes, so no bar carries any flow
+	let flat = Bar { dir: 0, ambiguous: false, mf: Q::exact(0.0), zero: true };
+	Some(Box::new(Mfi {
+		n,
+		zone: cfg.float("zone"),
+		last_sum: c0.h + c0.l + c0.c,
+		bars: std::iter::repeat(flat).take(n).collect(),
+		t: 0,
+		mag: 0.0,
+		// MFI of the prehistory is 0/0
+		defined: false,
+		prev_defined: false,
+		x_upper: CrossD::new(f64::NAN),
+		x_lower: CrossD::new(f64::NAN),
+	}))
+}
+
+impl IndRef for Mfi {
+	fn values(&mut self, c: &RC) -> Vec<Q> {
+		self.t += 1;
+		let s = c.h + c.l + c.c;
+		let p = self.last_sum;
+		self.last_sum = s;
+		let tol = 8.0 * crate::eps() * s.abs().max(p.abs());
+		let ambiguous = s != p && (s - p).abs() <= tol;
+		let dir = if s > p { 1 } else if s < p { -1 } else { 0 };
+		let (mf, zero) = if MONEY_FLOW_USES_PRICE { (c.tp() * Q::exact(c.v), c.v == 0.0 || s == 0.0) } else { (Q::exact(c.v), c.v == 0.0) };
+		self.mag = self.mag.max(mf.v.abs());
+		self.bars.push_back(Bar { dir, ambiguous, mf, zero });
+		while self.bars.len() > self.n {
+			self.bars.pop_front();
+		}
+
+		let upper = Q::exact(1.0 - self.zone).widen(2.0 * crate::eps());
+		let lower = Q::exact(self.zone);
+
+		self.prev_defined = self.defined;
+		let undecided = self.bars.iter().any(|b| b.ambiguous || !b.mf.is_defined());
+		// exact predicate: no bar of the window carries a flow in either direction -> 0/0
+		let no_flow = self.bars.iter().all(|b| b.dir == 0 || b.zero);
+		self.defined = !undecided && !no_flow;
+		if !self.defined {
+			return vec![upper, Q::undefined(), lower];
+		}
+		// window sums; the allowance covers sums that are maintained incrementally over the whole stream
+		let allow = crate::win_allow(self.t, self.n, self.n as f64, self.mag);
+		let sum = |d: i8| {
+			let mut v = 0.0;
+			let mut r = allow;
+			for b in self.bars.iter().filter(|b| b.dir == d && !b.zero) {
+				v += b.mf.v;
+				r += b.mf.r;
+			}
+			Q::new(v, r)
+		};
+		let pos = sum(1);
+		let neg = sum(-1);
+		let mfi = pos / (pos + neg);
+		vec![upper, mfi, lower]
+	}
+	fn signals(&mut self, _c: &RC, own: &[f64]) -> Vec<Sig> {
+		let (upper, mfi, lower) = (own[0], own[1], own[2]);
+		let xu = self.x_upper.cross(mfi, upper);
+		let xl = self.x_lower.cross(mfi, lower);
+		if !self.defined || !self.prev_defined {
+			// MFI is 0/0 at this or at the previous step (in particular in the prehistory): "crosses" has no meaning
+			return vec![Sig::Any, Sig::Any];
+		}
+		let enters = (xl < 0) as i32 - (xu > 0) as i32;
+		let leaves = (xl > 0) as i32 - (xu < 0) as i32;
+		vec![sig_sign(enters), sig_sign(leaves)]
+	}
+	indref!(Mfi);
 }
